@@ -2691,6 +2691,8 @@ static void struct_members(Token **rest, Token *tok, Type *ty) {
     // Anonymous struct member
     if ((basety->kind == TY_STRUCT || basety->kind == TY_UNION) &&
         consume(&tok, tok, ";")) {
+      if (basety->size < 0)
+        error_tok(tok, "field has incomplete type");
       Member *mem = calloc(1, sizeof(Member));
       mem->ty = basety;
       mem->idx = idx++;
@@ -2707,13 +2709,19 @@ static void struct_members(Token **rest, Token *tok, Type *ty) {
 
       Member *mem = calloc(1, sizeof(Member));
       mem->ty = declarator(&tok, tok, basety);
+      if ((mem->ty->kind == TY_STRUCT || mem->ty->kind == TY_UNION) && mem->ty->size < 0)
+        error_tok(tok, "field has incomplete type");
       mem->name = mem->ty->name;
       mem->idx = idx++;
       mem->align = attr.align;
 
       if (consume(&tok, tok, ":")) {
+        if (!is_integer(mem->ty))
+          error_tok(tok, "bit-field has a non-integer type");
         mem->is_bitfield = true;
         mem->bit_width = const_expr(&tok, tok);
+        if (mem->bit_width < 0 || mem->bit_width > mem->ty->size * 8)
+          error_tok(tok, "bit-field width out of range");
       }
 
       cur = cur->next = mem;
